@@ -464,4 +464,26 @@ def d6_reservation(facts, rep):
                        key_extra='%s/%s' % (label, kind))
     if n == 0:
         raise AnalysisBroken('D6: no non-exempt operation kinds found in the buffer handlers')
-    rep.floor('D6', 9, 'buffer operation kinds x node classes')
+    # input_node: the cached item is copied out (try_get, try_reserve, try_reserve_apply_body) only on a path on which
+    # my_reserved was seen false -- the cached item is reserved for one successor at a time
+    ni = 0
+    for fn in facts.fns.values():
+        if fn.cls != D2 + 'input_node':
+            continue
+        outs = [(pos, sx) for pos, sx, l, r in assignments(fn) if last_member(fn, r) == 'my_cached_item']
+        if not outs:
+            continue
+
+        def not_reserved(a, truth):
+            nd = fn.n(fn.strip(a))
+            return (not truth) and nd.get('k') == 'member' and nd.get('n') == 'my_reserved'
+        nr = edges_where(fn, not_reserved)
+        for pos, sx in outs:
+            ni += 1
+            ok, wit = dominated_by_edges(fn, pos, nr)
+            rep.ob('D6', 'K4', fn, 'input_node hands its cached item out only when it is not reserved (line %s)' % fn.nodes[sx].get('ln'), ok,
+                   'the cached item is copied to a second consumer while a reservation is outstanding: ' + wit, ln=fn.nodes[sx].get('ln'),
+                   key_extra=str(fn.nodes[sx].get('ln')))
+    if ni < 3:
+        raise AnalysisBroken('D6: input_node copy-out sites found: %d (expected try_get, try_reserve, try_reserve_apply_body)' % ni)
+    rep.floor('D6', 11, 'buffer operation kinds x node classes + input_node copy-out sites')
